@@ -60,7 +60,8 @@ def _frag(draw, tier, idx):
         f["arg"] = draw(st.sampled_from(["", arg]))
     elif kind == "loop_struct":
         f["expr"] = draw(st.sampled_from(["[1, snapshot(i)]", "[snapshot()] * (i + 1)", "{'a': snapshot(i)}",
-                                          "[snapshot(1), i]"]))
+                                          "[snapshot(1), i]", "[snapshot()]", "[snapshot([1])]", "{'a': snapshot()}"]))
+        f["vals"] = draw(st.sampled_from(["[], [7]", "[7], []", "5, [[1]]", "{}, {'a': 1}", "[1], [2], []"]))
     return f
 
 
@@ -100,7 +101,7 @@ def render_frag(f):
     if k == "eq_raises":
         return ["assert Raiser() == snapshot(1)" if n % 2 else "assert snapshot(1) == Raiser()"], []
     if k == "unused":
-        return [f"u{n} = snapshot({'5' if n % 2 else ''})"], []
+        return [f"u{n} = snapshot({['', '5', '[0x1, 0x2]', '{1+1: (2), 3: [0+3]}', 'Point(x=0x1, y=[1_0])'][n % 5]})"], []
     if k == "empty_sub":
         return ["assert 1 == snapshot({})['key']" if n % 2 else "s_ = snapshot({})", ], []
     if k == "access_only":
@@ -108,6 +109,9 @@ def render_frag(f):
     if k == "two_ops":
         return [f"s = snapshot({f['arg']})", f"assert {f['first']}", f"assert {f['second']}"], []
     if k == "loop_struct":
+        if n % 2 and "i" not in f["expr"].replace("snapshot", ""):
+            # the same outer snapshot compared with structurally different values in a loop
+            return [f"for v in ({f.get('vals', '[], [7]')}):", f"    assert v == snapshot({f['expr']})"], []
         return ["for i in range(3):", f"    assert [1, 2] != snapshot({f['expr']}) or True"], []
     raise ValueError(k)
 
